@@ -58,6 +58,31 @@ def d_uses_global():
     plain module-x module-x
     """
 
+def d_async_leaves_task():
+    """
+    A doctest that awaits and leaves a task behind that never got to run: it ends with this doctest
+
+    >>> import asyncio
+    >>> async def tick():
+    ...     await asyncio.sleep(0)
+    ...     print('tick left over from d_async_leaves_task')
+    >>> async def spawn():
+    ...     asyncio.ensure_future(tick())
+    ...     asyncio.get_running_loop().call_later(0, print, 'callback left over')
+    >>> await spawn()
+    """
+
+def d_async_reader():
+    """
+    >>> import asyncio
+    >>> async def hello():
+    ...     await asyncio.sleep(0)
+    ...     await asyncio.sleep(0)
+    ...     print('the reader is alone')
+    >>> await hello()
+    the reader is alone
+    """
+
 def d_echo_loop():
     """
     Values echoed from inside a compound statement (the interactive interpreter remembers the last one as `_`)
@@ -190,7 +215,7 @@ def d_requires_toplevel_present():
 
 # verdicts known by construction (whatever ran before, whatever the default options): the first observation in the
 # process is not trusted for these, it may itself be polluted by process-wide state
-EXPECT_VERDICT = {'d_echo_loop': 'passed', 'd_read_underscore': 'failed', 'd_lazy_skip': 'skipped', 'd_lazy_requires': 'passed', 'd_requires_dotted_missing': 'skipped', 'd_requires_dotted_present': 'passed', 'd_requires_toplevel_present': 'passed',
+EXPECT_VERDICT = {'d_async_leaves_task': 'passed', 'd_async_reader': 'passed', 'd_echo_loop': 'passed', 'd_read_underscore': 'failed', 'd_lazy_skip': 'skipped', 'd_lazy_requires': 'passed', 'd_requires_dotted_missing': 'skipped', 'd_requires_dotted_present': 'passed', 'd_requires_toplevel_present': 'passed',
                   'd_requires_two': 'skipped', 'd_define': 'passed', 'd_uses_global': 'passed', 'd_read': 'failed', 'd_read_leftover': 'failed'}
 
 
